@@ -2,7 +2,7 @@
 # confirm_mutant.sh <ID> <k>: in the scratch worktree /tmp/mut_<ID> confirm that patch<k> builds, keeps the test suite
 # result and that the demonstration distinguishes the unchanged from the changed code.  Prints a verdict.
 ID=$1; K=$2
-W=/tmp/mut_$ID; O=/tmp/mut_${ID}_out
+W=/tmp/${PFX:-mut}_$ID; O=/tmp/${PFX:-mut}_${ID}_out
 cd $W || exit 2
 git checkout -q -- . && git clean -fdq -e _b
 ninja -C $W/_b -j8 >/dev/null 2>&1 || { echo "VERDICT $ID-$K baseline-build-failed"; exit 1; }
